@@ -9,7 +9,7 @@ func init() {
 			cfg := engine.DefaultConfig()
 			var cs []engine.Case
 			for kind := int64(0); kind <= 1; kind++ {
-				for s := int64(0); s <= 3; s++ {
+				for s := int64(0); s <= 4; s++ {
 					for t := int64(0); t < 15; t++ {
 						cs = append(cs, mkCase("", "c01", "HStep", cfg, kind, s, t))
 					}
@@ -41,7 +41,7 @@ func init() {
 		Reach:       []string{"step", "unclean", "temp"},
 		Explanation: "Differential bounded symbolic execution: every namespace call template (Mkdir, MkdirAll, OpenFile with symbolic flags/perm and optional write, WriteFile, Remove, RemoveAll, Rename, Link, Symlink, Truncate, Chmod, Chown, Lchown, Chtimes, Stat) of MemFS and OrefaFS (Linux emulation, administrator) is executed symbolically in the same run as posixref, a reference model of package os on Linux (/verif/harness/posix); operands range over a 9-path depth-2 universe built on four seed trees, scalars are symbolic; after the call the errno and the whole observable tree (type, permission bits, owner, size, content, link count, link target, directory listings of every universe path) must be equal for every value of the symbolic inputs. Natively every explored path is replayed on MemFS/OrefaFS, on the model and on the real kernel (package os on a tmpfs scratch directory): a model/kernel disagreement is an ORACLE mismatch (exit 3), never a violation. Also: unclean path == Clean(path) on twin instances with n symbolic bytes; CreateTemp/MkdirTemp under the symbolic random-name stub.",
 		Bounds: func(tier string) map[string]any {
-			b := map[string]any{"history_length": 1, "seed_trees": "S0..S3", "universe_paths": 9, "flag_bits": "O_ACCMODE|O_CREATE|O_EXCL|O_TRUNC|O_APPEND (access mode 3 excluded)", "perm_bits": "0o777 for creation, 0o7777 for Chmod", "uid_gid": "-1..70000", "truncate_size": "-2..4", "unclean_symbolic_bytes": 3,
+			b := map[string]any{"history_length": 1, "seed_trees": "S0..S4", "universe_paths": 9, "flag_bits": "O_ACCMODE|O_CREATE|O_EXCL|O_TRUNC|O_APPEND (access mode 3 excluded)", "perm_bits": "0o777 for creation, 0o7777 for Chmod", "uid_gid": "-1..70000", "truncate_size": "-2..4", "unclean_symbolic_bytes": 3,
 				"outside": "longer histories, deeper trees, Chdir/relative paths, flag bits outside the mask, O_SYNC, non-administrator users (C03)"}
 			if tier == "thorough" {
 				b["history_length"] = "1, and 2 from seed S1 with the first step in {Mkdir, OpenFile, Remove, Rename, Link, Symlink}"
